@@ -147,6 +147,7 @@ Print Assumptions C09_labels_partial.
 Example C09_labels_partial_nonvacuous :
   Forall label_ok ["m_x"; "a-b"; "_c"; "d_"; "e.f"]%string.
 Proof. repeat constructor. Qed.
+Print Assumptions C09_labels_partial_nonvacuous.
 
 (* missing part of the full statement: a label containing a brace loses it ({a} -> a) *)
 Theorem C09_labels_braces_refuted : exists f', wit_roundtrip ["{a}"; "b"]%string RBin8 false = OK f' /\
@@ -166,6 +167,7 @@ Example C09_roundtrip_nonvacuous : exists f', wit_roundtrip ["a"; "b"]%string RB
   of_vdims f' = Some ["a"; "b"]%string /\ of_unit f' = Some "A/m"%string /\ of_nvdim f' = 2%nat /\
   n (of_mesh f') = [2; 1; 1]%Z /\ of_vals f' = [1; 2; 3; 4].
 Proof. exact wit_ok. Qed.
+Print Assumptions C09_roundtrip_nonvacuous.
 
 (* ---------------------------------------------------------------- mesh recovery *)
 (* the reader rebuilds the mesh with Mesh(region, cell=stepsize): for the stepsize the writer
@@ -182,6 +184,7 @@ Print Assumptions C09_mesh_reconstructed.
 Example C09_mesh_reconstructed_nonvacuous :
   mesh_by_cell (reg wit_mesh) [cell_of 0 2 2; cell_of 0 1 1; cell_of 0 1 1] = OK wit_mesh.
 Proof. vm_compute. reflexivity. Qed.
+Print Assumptions C09_mesh_reconstructed_nonvacuous.
 
 (* ================================================================ the composed round trip *)
 (* For every well-formed 3-d field (wf_ofield: what the Region/Mesh/Field constructors establish,
@@ -216,6 +219,7 @@ Print Assumptions C09_roundtrip.
 
 Example C09_roundtrip_wf_nonvacuous : wf_ofield (wit_field ["a"; "b"]%string).
 Proof. exact wit_wf. Qed.
+Print Assumptions C09_roundtrip_wf_nonvacuous.
 
 (* the writer's check value is the one the reader expects (both tables are read from io/ovf.py on
    every run: a change of either breaks this proof) *)
@@ -231,6 +235,7 @@ Print Assumptions C09_unit_partial.
 
 Example C09_unit_partial_nonvacuous : unit_ok (Some "kg*m^2:s"%string) /\ unit_ok None.
 Proof. split; [repeat split; discriminate | exact I]. Qed.
+Print Assumptions C09_unit_partial_nonvacuous.
 
 (* ... and the known finding C09-unit-whitespace: 'A / m' on two components is read back as no unit *)
 Theorem C09_unit_whitespace_refuted :
@@ -268,6 +273,7 @@ Example C09_faults_trailer_nonvacuous : exists fl sc f',
   encode 0 0 idQ (wit_field ["a"; "b"]%string) RBin8 false true = OK (fl, sc) /\
   decode 0 idQ fl sc = OK f' /\ is_binary (f_rep fl) = true /\ announced fl = 4%nat.
 Proof. exact wit_file_decodes. Qed.
+Print Assumptions C09_faults_trailer_nonvacuous.
 
 (* ================================================================ the side-car on disk *)
 (* saving over an existing side-car leaves the saved field's own table (possibly empty), never the
